@@ -299,5 +299,45 @@ func TestGovcReplaySetOps(t *testing.T) {
 			}
 		}
 	}
+	// operands are read-only and the result is a value of its own (term storage of a
+	// fact is shared between the worlds of an authorizer)
+	ints := func(xs ...int64) Set {
+		s := make(Set, len(xs))
+		for i, x := range xs {
+			s[i] = Integer(x)
+		}
+		return s
+	}
+	for _, c := range [][2]Set{{ints(1, 2, 3), ints(2)}, {ints(1, 2, 3), ints(3, 1)}, {ints(5), ints(1, 2, 5, 7)}, {ints(1, 2), ints(3, 4)}} {
+		for _, name := range []string{"Intersect", "Union"} {
+			sa, sb := append(Set{}, c[0]...), append(Set{}, c[1]...)
+			var r Set
+			if name == "Intersect" {
+				r = sa.Intersect(sb)
+			} else {
+				r = sa.Union(sb)
+			}
+			if !sa.Equal(c[0]) || !sb.Equal(c[1]) || len(sa) != len(c[0]) || len(sb) != len(c[1]) {
+				fmt.Printf("REPRODUCED: Set%v.%s(Set%v) changes an operand: afterwards the operands are %v and %v\n", c[0], name, c[1], sa, sb)
+				t.Fail()
+				return
+			}
+			for i := range sa {
+				if sa[i] != c[0][i] {
+					fmt.Printf("REPRODUCED: Set%v.%s(Set%v) rewrites its receiver: afterwards it is %v\n", c[0], name, c[1], sa)
+					t.Fail()
+					return
+				}
+			}
+			if len(r) > 0 {
+				r[0] = Integer(-99)
+				if sa[0] == Integer(-99) || sb[0] == Integer(-99) {
+					fmt.Printf("REPRODUCED: the result of Set%v.%s(Set%v) shares storage with an operand\n", c[0], name, c[1])
+					t.Fail()
+					return
+				}
+			}
+		}
+	}
 	fmt.Println("no failing input found")
 }
